@@ -198,6 +198,7 @@ func init() {
 			{Name: "lists", TShards: 4, Run: c02Lists},
 			{Name: "corrupt", QShards: 2, TShards: 8, Run: c02Corrupt},
 			{Name: "sizes", TShards: 6, Run: c02Sizes},
+			{Name: "prefixes", Run: prefixUnit("fastq", false, 0)},
 		},
 	})
 }
